@@ -86,16 +86,25 @@ def rule_link_stamp(ctx):
             continue
         nullc = [e for e in p.events if e.kind == "cond" and isinstance(e.term, tuple) and e.term[0] == "call"
                  and norm(e.term[1]).endswith("::is_null")]
+        ret = strip(p.ret)
         if not nullc:
-            r.violate(WITH_TS, "null", "does not test for null", wb.loc(0))
+            # no null test: every word is stamped. A stamped null is still null for every consumer (is_null, ptr_eq, as_raw
+            # ignore bits 60..63: BIT-TAGGED), so this is the same behaviour; what must hold is that the stamp is the current epoch
+            ok = (isinstance(ret, tuple) and ret[0] == "call" and norm(ret[1]) == "ebr_impl::pointers::Tagged::with_high_tag"
+                  and strip(ret[2][0]) == ("arg", 1, wb.local_name(1))
+                  and bool(calls_in(ret[2][1], "ebr_impl::default::global_epoch")))
+            r.instance("with_timestamp(p) = p.with_high_tag(global_epoch()) for every word, null included", ok)
+            if not ok:
+                r.violate(WITH_TS, "stamp", "a non-null pointer must be stamped with the current global epoch", wb.loc(0))
             continue
         isnull = nullc[0].value == 1
-        ret = strip(p.ret)
         if isnull:
-            ok = ret == ("arg", 1, wb.local_name(1))
-            r.instance("with_timestamp(null) = null unchanged", ok)
+            ok = ret == ("arg", 1, wb.local_name(1)) or (
+                isinstance(ret, tuple) and ret[0] == "call" and norm(ret[1]) == "ebr_impl::pointers::Tagged::with_high_tag"
+                and strip(ret[2][0]) == ("arg", 1, wb.local_name(1)))      # only bits 60..63 differ: still null, same tag
+            r.instance("with_timestamp(null) = null, user tag unchanged", ok)
             if not ok:
-                r.violate(WITH_TS, "null", "a null pointer must be returned unchanged", wb.loc(0))
+                r.violate(WITH_TS, "null", "a null pointer must be returned with its user tag unchanged", wb.loc(0))
         else:
             ok = (isinstance(ret, tuple) and ret[0] == "call" and norm(ret[1]) == "ebr_impl::pointers::Tagged::with_high_tag"
                   and strip(ret[2][0]) == ("arg", 1, wb.local_name(1))
@@ -188,6 +197,13 @@ def rule_cas_epoch_blind(ctx):
                         pair = {_k(a0), _k(a1)}
                         if _k(payload) in pair and _k(strip(e.args[1])) in pair and q.value == 0:
                             good = True
+                    if not good and _null_never_stamped(ctx):
+                        # rely/guarantee with LINK-STAMP: when no null word can carry epoch bits, a failure against a *null*
+                        # expected word needs no ptr_eq: the words differ in pointer or tag
+                        exp = strip(e.args[1])
+                        if any(q.kind == "cond" and q.value == 1 and isinstance(q.term, tuple) and q.term[0] == "call"
+                               and norm(q.term[1]).endswith("::is_null") and _unref(q.term[2][0]) == exp for q in p.events):
+                            good = True
                     r.instance("%s: Err only after ptr_eq(observed, expected) == false" % name, good)
                     if not good:
                         r.violate(name, "err-return",
@@ -220,6 +236,45 @@ def rule_cas_epoch_blind(ctx):
 
 def _k(t):
     return t
+
+
+def _unref(t):
+    t = strip(t)
+    while isinstance(t, tuple) and t[0] == "ref":
+        t = strip(t[1])
+    return t
+
+
+def _null_never_stamped(ctx):
+    """No null word carries epoch bits: with_high_tag is applied by the stamping helper only, and that helper returns a null
+    word unchanged. (Words otherwise start as null() = 0 or an allocation and are modified by with_tag only: LINK-TAG.)"""
+    if hasattr(ctx, "_nns"):
+        return ctx._nns
+    prog = ctx.prog
+    ok = True
+    callers = {name for name, b in prog.bodies.items() for (_, _, c) in b.calls()
+               if norm(c.target or "") == "ebr_impl::pointers::Tagged::with_high_tag" and "::tests::" not in name
+               and "::test::" not in name}
+    # Tagged::ptr_eq clears the epoch bits of both operands to compare them: its result is a bool, no word escapes
+    callers -= {c for c in callers if norm(c) == "ebr_impl::pointers::Tagged::ptr_eq"}
+    if not callers or any(not c.endswith("::with_timestamp") for c in callers):
+        ok = False
+    wb = prog.bodies.get(WITH_TS)
+    if wb is None:
+        ok = False
+    else:
+        sawnull = False
+        for p in ctx.ex.paths(wb):
+            if p.exit[0] != "return":
+                continue
+            nullc = [e for e in p.events if e.kind == "cond" and isinstance(e.term, tuple) and e.term[0] == "call"
+                     and norm(e.term[1]).endswith("::is_null")]
+            if nullc and nullc[0].value == 1:
+                sawnull = True
+                ok = ok and strip(p.ret) == ("arg", 1, wb.local_name(1))
+        ok = ok and sawnull
+    ctx._nns = ok
+    return ok
 
 
 # ------------------------------------------------------------------------------------------
